@@ -98,3 +98,17 @@ Theorem divider_arithmetic_is_what_the_source_says :
      rot_to_z_gen N n = rot_to_z N n).
 Proof. split; [reflexivity|]. split; intros; [split; reflexivity|]. split; [reflexivity|]. split; reflexivity. Qed.
 Print Assumptions divider_arithmetic_is_what_the_source_says.
+
+(* WHAT THE REGENERATED CODE DOES: the two statements about find_edge_plane_intersection as regenerated from cell_divider.cpp (at R;
+   convertible with the model): a returned point lies on the edge and on the plane, and an edge whose end points are strictly on
+   opposite sides of the plane is cut. *)
+Theorem regenerated_intersection_point_on_edge_and_plane : forall e1 e2 p n x : vR,
+  edge_plane_gen NumR e1 e2 p n = Some x ->
+  exists t, 0 <= t <= 1 /\ x = e1 +v (e2 -v e1) *v t /\ n ·  (x -v p) = 0.
+Proof. exact edge_plane_sound. Qed.
+Print Assumptions regenerated_intersection_point_on_edge_and_plane.
+
+Theorem regenerated_crossing_edge_is_cut : forall e1 e2 p n : vR,
+  (n ·  (e1 -v p)) * (n ·  (e2 -v p)) < 0 -> exists x, edge_plane_gen NumR e1 e2 p n = Some x.
+Proof. exact edge_plane_complete. Qed.
+Print Assumptions regenerated_crossing_edge_is_cut.
